@@ -77,7 +77,12 @@ def reservoir_bfs(acc, tier, i, n):
     caps = (1, 2, 3)
     resizes = (1, 2, 3, 4)
     try:
-        start = [(c, c, (), 0) for c in caps]
+        # initial states come from the real constructor (the capacity it stores must be the one asked for)
+        start = []
+        for c in caps:
+            r0 = st.Reservoir(c)
+            o = observe(r0)
+            start.append((c, o[0], o[1], o[2]))
         # shard by (initial capacity, first operation)
         seen = set(start)
         frontier = list(start)
@@ -312,6 +317,25 @@ def counting(acc, tier, i, n):
                 acc.sample({'history': list(hist)})
 
 
+def long_history(acc):
+    """Counts stay exact beyond the capacity of the per-route sample store (2**14 samples)."""
+    w = StatsWorld()
+    n = 2 ** 14 + 40
+    for k in range(n):
+        w.step('ok')
+        if k % 4096 == 0:
+            w.step('raise403')
+    acc.transitions += n
+    acc.evaluated += 1
+    acc.validated += 1
+    acc.add('nontrivial')
+    bad = w.step('read')
+    acc.outcome('counting-long-history')
+    if bad:
+        acc.violation('C19:counting-beyond-sample-capacity:%s' % bad[0].split(':')[0], '%s; after %d requests to one route' % (bad[1][:300], n),
+                      {'part': 'long', 'n': n})
+
+
 def nshards(tier):
     return 32
 
@@ -321,6 +345,8 @@ def shard(tier, i, n, seed):
     acc = common.Acc()
     reservoir_bfs(acc, tier, i, n)
     counting(acc, tier, i, n)
+    if i == 2 % n:
+        long_history(acc)
     return acc
 
 
@@ -366,6 +392,10 @@ def replay(case):
             return True, 'ok %r' % ((ncap, ndata, ntotal),)
         finally:
             st.random = orig
+    if case['part'] == 'long':
+        acc = common.Acc()
+        long_history(acc)
+        return (not acc.violations), (acc.violations[0]['desc'] if acc.violations else 'ok')
     w = StatsWorld()
     for s in case['history']:
         bad = w.step(s)
